@@ -123,14 +123,95 @@ fn c18_space_isize(order: usize, alpha: &'static [isize]) -> Space {
     })
 }
 
+/// The other index forms (flat usize, Range, RangeFull; read and write) address the same row-major
+/// storage as (u, v), and metrics read what was written through any of them.
+fn c18_index_forms<W>(order: usize, entries: &[W], inf: W, ctx: &mut Ctx, name: &str)
+where
+    W: Copy + Ord + std::fmt::Debug,
+{
+    let det = || json!({"weight_type": name, "order": order, "rows": entries.chunks(order).map(|r| format!("{r:?}")).collect::<Vec<_>>()});
+    let n2 = order * order;
+    ctx.exec();
+    let r = guarded(|| {
+        let mut a = DistanceMatrix::new(order, inf);
+        for i in 0..n2 {
+            a[i] = entries[i]; // IndexMut<usize>
+        }
+        let mut b = DistanceMatrix::new(order, inf);
+        b[..].copy_from_slice(entries); // IndexMut<RangeFull>
+        let mut c = DistanceMatrix::new(order, inf);
+        for u in 0..order {
+            c[u * order..(u + 1) * order].copy_from_slice(&entries[u * order..(u + 1) * order]); // IndexMut<Range>, row by row
+        }
+        let mut bad: Option<String> = None;
+        for (nm, m) in [("IndexMut<usize>", &a), ("IndexMut<RangeFull>", &b), ("IndexMut<Range>", &c)] {
+            for u in 0..order {
+                for v in 0..order {
+                    if m[(u, v)] != entries[u * order + v] && bad.is_none() {
+                        bad = Some(format!("after writing through {nm}, Index<({u}, {v})> reads {:?}, row {u} column {v} holds {:?}", m[(u, v)], entries[u * order + v]));
+                    }
+                }
+            }
+            if &m[..] != entries && bad.is_none() {
+                bad = Some(format!("after writing through {nm}, Index<RangeFull> reads {:?}", &m[..]));
+            }
+        }
+        for lo in 0..=n2 {
+            for hi in lo..=n2 {
+                if &a[lo..hi] != &entries[lo..hi] && bad.is_none() {
+                    bad = Some(format!("Index<Range> {lo}..{hi} reads {:?}, row-major contents are {:?}", &a[lo..hi], &entries[lo..hi]));
+                }
+            }
+        }
+        // metrics read what was written through the flat index
+        let ecc: Vec<W> = (0..order).map(|u| *entries[u * order..(u + 1) * order].iter().max().unwrap()).collect();
+        if a.eccentricities().copied().collect::<Vec<W>>() != ecc && bad.is_none() {
+            bad = Some("eccentricities() after writing through IndexMut<usize> are not the row maxima".to_string());
+        }
+        // a single write through (u, v) changes exactly that cell
+        for u in 0..order {
+            for v in 0..order {
+                let mut m = b.clone();
+                m[(u, v)] = inf;
+                for i in 0..n2 {
+                    let want = if i == u * order + v { inf } else { entries[i] };
+                    if m[i] != want && bad.is_none() {
+                        bad = Some(format!("one write through IndexMut<({u}, {v})> changed flat cell {i}"));
+                    }
+                }
+            }
+        }
+        bad
+    });
+    match r {
+        Err(e) => ctx.fail(format!("DistanceMatrix index forms panicked: {e}"), det()),
+        Ok(Some(b)) => ctx.fail(b, det()),
+        Ok(None) => {}
+    }
+    // out-of-range indices panic (documented slice semantics), never read foreign memory
+    ctx.execs_n(3);
+    let m = guarded(|| {
+        let mut m = DistanceMatrix::new(order, inf);
+        m[..].copy_from_slice(entries);
+        m
+    });
+    if let Ok(m) = m {
+        if guarded(|| m[n2]).is_ok() || guarded(|| m[(order, 0)]).is_ok() || guarded(|| m[0..n2 + 1].len()).is_ok() {
+            ctx.fail("an index just outside the matrix (flat order², (order, 0), range ..order²+1) did not panic", det());
+        }
+    }
+}
+
 /// pairwise-distinct contents: a transposed or mis-strided addressing cannot hide
 fn c18_space_distinct() -> Space {
-    Space::new("c18.distinct", vec![], 7, "matrices of orders 1..=7 with pairwise distinct entries u*order+v (addressing check) and DistanceMatrix::new(0, _) panics", move |idx, ctx| {
+    Space::new("c18.distinct", vec![], 7, "matrices of orders 1..=7 with pairwise distinct entries (addressing check through every index form: (u,v), flat usize, every Range lo..hi, RangeFull, read and write; single-cell writes; out-of-range indices panic) and DistanceMatrix::new(0, _) panics", move |idx, ctx| {
         let order = idx as usize + 1;
         let entries: Vec<usize> = (0..order * order).map(|i| i * 3 + 1).collect();
         c18_check(order, &entries, usize::MAX, ctx, "usize");
         let entries_i: Vec<isize> = (0..order * order).map(|i| (i as isize) * 5 - 7).collect();
         c18_check(order, &entries_i, isize::MAX, ctx, "isize");
+        c18_index_forms(order, &entries, usize::MAX, ctx, "usize");
+        c18_index_forms(order, &entries_i, isize::MAX, ctx, "isize");
         ctx.exec();
         if guarded(|| DistanceMatrix::<usize>::new(0, usize::MAX)).is_ok() {
             ctx.fail("DistanceMatrix::new(0, infinity) did not panic", json!({}));
@@ -166,7 +247,7 @@ pub fn c18(tier: &str, seed: u64) -> Check {
         "C18",
         tier,
         seed,
-        "bounded-exhaustive: every matrix of order ≤ 3 over {0,1,2,∞} (usize) and {-1,0,2,∞} (isize) and over {0,3,9} with a finite infinity 9; order 4 over three-letter alphabets in the thorough tier (3^16 each); plus pairwise-distinct matrices of orders 1..7 for the addressing. Filled through IndexMut<(u,v)>, read back through the flat vector and Index; eccentricities / diameter / center / periphery / is_connected against row maxima etc.; new(order, ∞) shape; new(0) panics. FloydWarshall outputs are fed through the same oracle by C08's matrices via the public fields. Non-trivial: center != periphery.",
+        "bounded-exhaustive: every matrix of order ≤ 3 over {0,1,2,∞} (usize) and {-1,0,2,∞} (isize) and over {0,3,9} with a finite infinity 9; order 4 over three-letter alphabets in the thorough tier (3^16 each); plus pairwise-distinct matrices of orders 1..7 for the addressing (every index form — (u,v), flat usize, every Range, RangeFull — read and write, single-cell writes, metrics after flat writes, out-of-range indices panic). Filled through IndexMut<(u,v)>, read back through the flat vector and Index; eccentricities / diameter / center / periphery / is_connected against row maxima etc.; new(order, ∞) shape; new(0) panics. FloydWarshall outputs are fed through the same oracle by C08's matrices via the public fields. Non-trivial: center != periphery.",
         &["entries never exceed the infinity value, as the property requires"],
         json!({"max_order": if thorough {4} else {3}}),
     );
